@@ -25,6 +25,8 @@ import (
 //   Rsp(i, v)       response to the i-th request: v=0 right peer, matching SEID; v=1 right peer, SEID 0;
 //                   v=2 same sequence number from the wrong peer; v=3 right peer, non-outstanding sequence;
 //                   v=4 same sequence number from the right IP address but another UDP port (peer A2);
+//                   v=5 right peer, matching SEID, arriving after the request's timer has fired but before the
+//                   timer's notification reaches the loop (the notification is delivered right after it);
 //                   for the last retired request v=0 again (a duplicated response)
 // Requests are identified by (peer address, wire sequence number) read from the transaction objects' fields.
 
@@ -119,12 +121,12 @@ func (c *c09) Enabled() []seqx.Event {
 		x := seqx.Ev("Expire", int64(i))
 		x.N = fmt.Sprintf("ExpireTx(#%d)", i)
 		ev = append(ev, x)
-		for v := 0; v < 5; v++ {
+		for v := 0; v < 6; v++ {
 			if v == 4 && c.tx[i].peer != 0 {
 				continue // A2 shares the address of peer A only
 			}
 			y := seqx.Ev("Rsp", int64(i), int64(v))
-			y.N = fmt.Sprintf("Rsp(#%d,%s)", i, []string{"ok", "SEID 0", "wrong peer", "unknown seq", "right host, other port"}[v])
+			y.N = fmt.Sprintf("Rsp(#%d,%s)", i, []string{"ok", "SEID 0", "wrong peer", "unknown seq", "right host, other port", "ok, overtaking the fired timer's notification"}[v])
 			ev = append(ev, y)
 		}
 	}
@@ -251,6 +253,14 @@ func (c *c09) Apply(e seqx.Event) seqx.StepResult {
 				}
 			}
 		}
+		lateID := ""
+		if v == 5 {
+			// the retransmission timer has fired, but its notification reaches the loop after the response
+			if x := c.realTx(t); x != nil && !c.W.Dead {
+				lateID = x.ID
+				c.W.V.FireOnly(lateID)
+			}
+		}
 		s0 := c.state()
 		o = c.W.Send(from, smf.ReportRsp(seq, seid, smf.CauseAccepted))
 		if j.Crashed(c.W, o) {
@@ -259,7 +269,21 @@ func (c *c09) Apply(e seqx.Event) seqx.StepResult {
 		if n := count(o); n != 0 {
 			j.Fail("response-answered", "a Session Report Response caused %d datagram(s)", n)
 		}
-		matches := !t.retired && (v == 0 || v == 1)
+		if lateID != "" {
+			if c.realTx(t) != nil {
+				j.Fail("bookkeeping-not-released:response-overtakes-expiry", "request #%d was answered while its fired timer's notification was still on its way: the transaction is still retained", i)
+			}
+			s1 := c.state()
+			o2 := c.W.Expire(true, lateID)
+			if j.Crashed(c.W, o2) {
+				break
+			}
+			if n := count(o2); n != 0 || c.state() != s1 {
+				j.Fail("retransmission-after-retirement:response-overtakes-expiry", "the overtaken timer notification of answered request #%d sent %d datagram(s) or changed state", i, n)
+			}
+			j.Tag("response-overtakes-expiry")
+		}
+		matches := !t.retired && (v == 0 || v == 1 || v == 5)
 		if !matches {
 			j.Tag([]string{"duplicate-response", "", "wrong-peer-response", "unknown-seq-response", "other-port-response"}[v])
 			if c.state() != s0 || len(o.Calls) != 0 {
@@ -268,7 +292,9 @@ func (c *c09) Apply(e seqx.Event) seqx.StepResult {
 			break
 		}
 		t.retired = true
-		j.Tag("matched")
+		if v != 5 {
+			j.Tag("matched")
+		}
 		if v == 1 {
 			if s := c.R.Live[t.up]; s != nil && s.CP == t.cp {
 				c.R.EndSession(t.up)
